@@ -20,7 +20,7 @@ import itertools
 PROPERTY = "C32"
 RULE = (
     "fields: all 26 symmetry tuples x {E,H} x shapes with every axis in {1,2,3,5} x {float64, complex128}; detectors: "
-    "symmetry tuples (quick: 6 per run, thorough: all 26) x detector kinds {field, phasor, "
+    "symmetry tuples (quick: 5 fixed + 2 seeded per run, thorough: all 26) x detector kinds {field, phasor, "
     "phasor_poynting, energy, energy slices, poynting scalar/vector} x {co-located, raw} x component subsets x box "
     "classes per axis {symmetric straddle, asymmetric straddle, clipped to one cell, starts at plane, upper half only} "
     "x {recorded run, random refills}.  distinct = (tuple class, detector kind/mode, touched walls, box class)"
@@ -39,7 +39,7 @@ ASSUMPTIONS = [
 CASE_TIMEOUT = {"quick": 900, "thorough": 1800}
 
 TUPLES = [t for t in itertools.product((-1, 0, 1), repeat=3) if any(t)]
-QUICK_DET = [(-1, 0, 0), (0, 1, 0), (0, 0, -1), (0, 0, 1), (-1, 1, 0), (1, -1, -1)]
+QUICK_DET = [(-1, 0, 0), (0, 1, 0), (0, 0, -1), (1, 1, 1), (1, -1, -1)]
 
 
 def EXHAUSTIVE(tier):
@@ -55,14 +55,28 @@ def cases(tier, rng):
     if q:
         dets = list(QUICK_DET)
         extra = [t for t in TUPLES if t not in dets]
-        dets += [extra[int(i)] for i in rng.permutation(len(extra))[:0]]
+        dets += [extra[int(i)] for i in rng.permutation(len(extra))[:2]]  # two more tuples drawn from the run seed
         for t in dets:
             out.append({"kind": "detectors", "sym": list(t), "refills": 1})
     else:
-        for rep in range(2):
+        for rep in range(4):
             for t in TUPLES:
                 out.append({"kind": "detectors", "sym": list(t), "refills": 4})
     return out
+
+
+def _violate(r, what, witness=None, mechanism=None, sig=None):
+    """Record at most two violations per mechanism key and case, so that a frequent (possibly already known)
+    mechanism cannot crowd a different one out of the bounded violation list of `Res`."""
+    k = f"violations[{mechanism}]"
+    r.count(k)
+    if r.counters[k] <= 2:
+        r.violate(what, witness, mechanism, sig)
+    else:
+        r.evals += 1
+        if sig is not None:
+            r.sigs.add(sig if isinstance(sig, str) else repr(sig))
+
 
 
 def run_case(case):
@@ -175,7 +189,7 @@ def _fields(case, r, rng):
     for ft in ("E", "H"):
         try:
             fdtdx.unfold_fields(jnp.zeros((3, 2, 2, 2)), (0, 0, 0), ft)
-            r.violate("unfold_fields accepted symmetry (0,0,0) (documented ValueError)", {"field_type": ft})
+            _violate(r, "unfold_fields accepted symmetry (0,0,0) (documented ValueError)", {"field_type": ft})
         except ValueError:
             r.ok(None)
     r.sample = {"symmetry": case["tuples"][0], "shapes": [list(x) for x in FIELD_SHAPES]}
@@ -192,19 +206,19 @@ def _judge_field(r, fn, jnp, F, sym, ft, shp, cplx, vk, case):
     try:
         got = np.asarray(fn(jnp.asarray(F), sym, ft))
     except Exception as e:  # noqa: BLE001
-        r.violate(
+        _violate(r, 
             f"unfold_fields raised {type(e).__name__}: {str(e)[:200]}", wit, sig=sig,
             mechanism="unfold-electric-plane-kept-axis-of-one-cell" if single_on_plane else None,
         )
         return
     want_shape = (3, *[shp[a] * (2 if sym[a] else 1) for a in range(3)])
     if got.shape != want_shape:
-        r.violate(f"unfolded shape {got.shape} != {want_shape} (every symmetric axis doubled)", wit, sig=sig,
+        _violate(r, f"unfolded shape {got.shape} != {want_shape} (every symmetric axis doubled)", wit, sig=sig,
                   mechanism="unfold-electric-plane-kept-axis-of-one-cell" if single_on_plane else None)
         return
     idx = (slice(None),) + tuple(slice(shp[a], None) if sym[a] else slice(None) for a in range(3))
     if not np.array_equal(got[idx], F):
-        r.violate("upper half of the unfolded field is not the input", wit, sig=sig, mechanism="unfold-upper-half-not-input")
+        _violate(r, "upper half of the unfolded field is not the input", wit, sig=sig, mechanism="unfold-upper-half-not-input")
         return
     if single_on_plane:
         r.ok(sig)
@@ -215,7 +229,7 @@ def _judge_field(r, fn, jnp, F, sym, ft, shp, cplx, vk, case):
         r.ok(sig)
     else:
         bad = np.argwhere(got != want)[0]
-        r.violate(
+        _violate(r, 
             "mirrored half violates the documented parity / index map",
             {**wit, "index": [int(x) for x in bad], "got": _c(got[tuple(bad)]), "want": _c(want[tuple(bad)])},
             sig=sig,
@@ -295,29 +309,34 @@ def _det_specs(rng, shape, sym):
 
     nb = 0
 
-    def newbox(force=None):
+    def newbox(first=False):
+        # the first box of every detector family straddles every symmetry plane (symmetrically or not, never clipped to
+        # one cell), so that each family is unfolded across all planes of the tuple at least once per scene
         nonlocal nb
         nb += 1
-        cls = [force or classes[int(rng.integers(len(classes)))] if sym[a] else "free" for a in range(3)]
-        if force is None and nb <= 2:
-            cls = ["straddle_sym" if sym[a] else "free" for a in range(3)]
+        if first:
+            cls = [("straddle_sym", "straddle_asym")[int(rng.integers(2))] if sym[a] else "free" for a in range(3)]
+            if nb % 2:
+                cls = ["straddle_sym" if sym[a] else "free" for a in range(3)]
+        else:
+            cls = [classes[int(rng.integers(len(classes)))] if sym[a] else "free" for a in range(3)]
         return _box(rng, shape, sym, cls), cls
 
     # field detectors
     for exact, comps in ((True, COMP), (False, COMP), (True, tuple(c for c in COMP if rng.random() < 0.5) or ("Hy",))):
-        box, cls = newbox()
+        box, cls = newbox(first=exact and comps is COMP)
         for red in (False, True):
             add({"kind": "field", "reduce": red, "exact": exact, "components": list(comps)}, "field", f"field{len(specs) // 2}", box,
                 reduce=red, exact=exact, components=list(comps), box_class=cls)
     # phasor detectors
     for exact, comps in ((True, COMP), (False, ("Ex", "Hz", "Ey"))):
-        box, cls = newbox()
+        box, cls = newbox(first=not exact)
         for red in (False, True):
             add({"kind": "phasor", "reduce": red, "exact": exact, "components": list(comps), "wavelengths": [1e-6, 0.7e-6]}, "phasor",
                 f"phasor{len(specs) // 2}", box, reduce=red, exact=exact, components=list(comps), box_class=cls)
     # energy
     for exact in (True, False):
-        box, cls = newbox()
+        box, cls = newbox(first=exact)
         add({"kind": "energy", "reduce": False, "exact": exact}, "energy", f"energy{exact}", box, reduce=False, exact=exact, box_class=cls)
         add({"kind": "energy", "reduce": True, "exact": exact}, "energy", f"energy{exact}", box, reduce=True, exact=exact, box_class=cls)
         add({"kind": "energy", "as_slices": True, "exact": exact}, "energy_slices", None, box, reduce=False, exact=exact, box_class=cls)
@@ -326,7 +345,7 @@ def _det_specs(rng, shape, sym):
     # whose shapes differ, and raises for every box (reported separately; not part of C32)
     for keep_all in (False,):
         for exact in (True, False):
-            box, cls = newbox()
+            box, cls = newbox(first=not exact)
             axis = int(rng.integers(3))
             direction = "+" if rng.random() < 0.5 else "-"
             for red in (False, True):
@@ -439,14 +458,14 @@ def _detectors(case, r, rng):
         try:
             unf = fdtdx.unfold_detector_states(arrs, objects, config)
         except Exception as e:  # noqa: BLE001
-            r.violate(f"unfold_detector_states raised {type(e).__name__}: {str(e)[:300]}", {**desc, "how": how})
+            _violate(r, f"unfold_detector_states raised {type(e).__name__}: {str(e)[:300]}", {**desc, "how": how})
             return
         out = {k: {kk: np.asarray(vv) for kk, vv in v.items()} for k, v in unf.detector_states.items()}
         # input container untouched
         for k, v in arrs.detector_states.items():
             for kk, vv in v.items():
                 if not np.array_equal(np.asarray(vv), states_in[k][kk], equal_nan=True):
-                    r.violate("unfold_detector_states changed its input arrays", {**desc, "detector": k})
+                    _violate(r, "unfold_detector_states changed its input arrays", {**desc, "detector": k})
         unf_spatial = {}
         for name, m in meta.items():
             if name not in states_in:
@@ -463,7 +482,7 @@ def _detectors(case, r, rng):
                         r.ok(sig)
                         r.branch("untouched_detector_unchanged")
                     else:
-                        r.violate("a detector that does not straddle any symmetry plane was changed by unfolding", wit, sig=sig,
+                        _violate(r, "a detector that does not straddle any symmetry plane was changed by unfolding", wit, sig=sig,
                                   mechanism="unfold-changes-untouched-detector")
                     continue
                 if m["reduce"]:
@@ -482,14 +501,14 @@ def _detectors(case, r, rng):
                 one_cell = any(a in onp and arr.shape[sp[a]] == 1 for a in active)
                 mech1 = "unfold-electric-plane-kept-axis-of-one-cell" if one_cell else None
                 if got.shape != want.shape:
-                    r.violate(f"unfolded record shape {got.shape} != {want.shape} (each clipped axis doubled)", {**wit, "key": key}, sig=sig,
+                    _violate(r, f"unfolded record shape {got.shape} != {want.shape} (each clipped axis doubled)", {**wit, "key": key}, sig=sig,
                               mechanism=mech1 or "unfold-detector-shape")
                     continue
                 idx = [slice(None)] * arr.ndim
                 for a in active:
                     idx[sp[a]] = slice(arr.shape[sp[a]], None)
                 if not np.array_equal(got[tuple(idx)], arr, equal_nan=True):
-                    r.violate("upper half of the unfolded record is not the stored record", {**wit, "key": key}, sig=sig, mechanism="unfold-upper-half-not-input")
+                    _violate(r, "upper half of the unfolded record is not the stored record", {**wit, "key": key}, sig=sig, mechanism="unfold-upper-half-not-input")
                     continue
                 if one_cell:
                     r.ok(sig)
@@ -499,7 +518,7 @@ def _detectors(case, r, rng):
                 else:
                     bad = np.argwhere(~((got == want) | (np.isnan(got) & np.isnan(want))))[0]
                     sign_only = np.array_equal(np.abs(got), np.abs(want))
-                    r.violate(
+                    _violate(r, 
                         "mirrored half of a detector record violates the documented parity / index map",
                         {**wit, "key": key, "index": [int(x) for x in bad], "got": _c(got[tuple(bad)]), "want": _c(want[tuple(bad)])},
                         sig=sig,
@@ -544,7 +563,7 @@ def _detectors(case, r, rng):
             r.count("comparisons")
             w2 = want.reshape(got.shape) if want.size == got.size else want
             if w2.shape != got.shape:
-                r.violate(f"unfolded reduced record has shape {got.shape}, reduction of the unfolded spatial record {w2.shape}",
+                _violate(r, f"unfolded reduced record has shape {got.shape}, reduction of the unfolded spatial record {w2.shape}",
                           {**desc, "spatial": ms, "reduced": mr, "touched": list(touched), "how": how}, sig=sig,
                           mechanism=f"unfold-reduced-{ms['tag']}-{_wall_names(touched)}")
                 continue
@@ -556,7 +575,7 @@ def _detectors(case, r, rng):
                 r.ok(sig if scale > 0 else None)
             else:
                 bad = np.unravel_index(int(np.argmax(np.abs(got - w2))), got.shape)
-                r.violate(
+                _violate(r, 
                     "unfolded volume-reduced value differs from the reduction of the unfolded spatial record",
                     {**desc, "spatial": ms, "reduced": mr, "touched": list(touched), "how": how, "index": [int(x) for x in bad],
                      "got": _c(got[bad]), "want": _c(w2[bad]), "natural_scale": wsc},
